@@ -148,9 +148,9 @@ ADDENDA = {
     "C10": " Added: CreateStore as a third way of reopening the surviving map (refused while a store exists; otherwise a fresh store that keeps a certificate across the next restart).",
     "C11": " Added: the model learns which file received an entry from the directory (no mirror of the rotation rule); histories continue from a tail torn strictly inside a record (appends, rotations, purges and restarts behind it); appends whose encoder fails after a generated number of bytes (refused, must leave no trace).",
     "C12": " Added: node action torn-crash-restart (a strict prefix of a record left at the end of the newest WAL file before an abrupt restart); after a restart half of the requests conflict with an earlier request of the same slot; rounds {0,1,5,6,7,13}; node action big-burst (14 identities vote for a maximum-size chain: one WAL file grows past 1 MiB and rolls over); rebroadcast requests aimed at the slots of earlier requests.",
-    "C14": " Added: overlimit operator (an independent CBOR walker locates every array/map/string header of a valid encoding; one is replaced by a header announcing 2^31..2^64-1: decoding must fail); JSON round trips of tipsets, chains, supplemental data, payloads and certificates; boundary-size chains (100-128 tipsets with 760-byte keys); decoding into a value that already held another chain whose key had been read (raw and through the encoding package): every derived datum must be that of the decoded chain.",
+    "C14": " Added: overlimit operator (an independent CBOR walker locates every array/map/string header of a valid encoding; one is replaced by a header announcing 2^31..2^64-1: decoding must fail); JSON round trips of tipsets, chains, supplemental data, payloads and certificates; boundary-size chains (100-128 tipsets with 760-byte keys); decoding into a value that already held another chain whose key had been read (raw and through the encoding package): every derived datum must be that of the decoded chain; Append on a prefix object handed out by AllPrefixes / Prefix must leave the parent chain, the sibling objects and their cached keys intact.",
     "C15": " Added: metamorphic deep-reorg variant (the EC view forks off before the bootstrap tipset while certificates are stored); cluster engine: certificates stored by real nodes must start at the previous head, run along EC parent links with EC's table CIDs, carry the delta between the node-rule committees and commit to the next one; the EC backend serves power tables in any member order; the inputs object is reused across instances and asked again after the EC head moved.",
-    "C16": " Added: stores with an orphan certificate above the latest pointer; certificates put into the poller's own store before a poll; the client against a scripted responder (shifted, repeated, skipped, over-limit runs, garbage tail): only the in-sequence prefix within the limit is delivered; tables of 100-8192 members with deltas of up to 3000 entries through the real server and client.",
+    "C16": " Added: stores with an orphan certificate above the latest pointer; certificates put into the poller's own store before a poll; the client against a scripted responder (shifted, repeated, skipped, over-limit runs, garbage tail): only the in-sequence prefix within the limit is delivered; tables of 100-8192 members with deltas of up to 3000 entries through the real server and client; the polling node's own store advancing while a request is in flight.",
     "C17": " Added: tables of 50-8192 members with deltas of up to 5000 entries; corruptions that keep the block count (a block overwritten by a copy of another, a repeated certificate paying for a dropped one, a dropped one paid for by a surplus one at the end).",
     "C18": " Added: re-broadcasts of known chains and chains sharing a proper prefix; timestamps far outside the window across the whole int64 range; caches of 128-160 entries per instance with chains of 100-128 tipsets (1 case in 40).",
     "C19": " Added: invalid decisions reported for a past instance; decisions whose header claims another phase/round than the quorum signed; CertChain.Validate must accept chains built under the node's committee rule and reject a certificate signed by another instance's committee.",
